@@ -125,9 +125,9 @@ fn dispatch_family(st: &mut Stats, maxlen: usize) {
             let host_pat = if ps == "*" { "**".to_string() } else { ps.clone() };
             let built = std::panic::catch_unwind(std::panic::AssertUnwindSafe(|| {
                 (
-                    build(&Cfg { hosts: vec![(host_pat.clone(), vec!["/*".into()], vec![])], default_routes: vec!["/*".into()], default_ws: vec![] }).verif_into_parts(),
+                    build(&Cfg { hosts: vec![(host_pat.clone(), vec!["/*".into()], vec![])], default_routes: vec!["/*".into()], default_ws: vec![], kinds: vec![], direct: false }).verif_into_parts(),
                     // (b) as a route pattern: that route answers iff it matches the path, else the catch-all registered after it
-                    build(&Cfg { hosts: vec![], default_routes: vec![format!("/{}", ps), "/*".into()], default_ws: vec![] }).verif_into_parts(),
+                    build(&Cfg { hosts: vec![], default_routes: vec![format!("/{}", ps), "/*".into()], default_ws: vec![], kinds: vec![], direct: false }).verif_into_parts(),
                 )
             }));
             let Ok((as_host, as_route)) = built else {
